@@ -89,6 +89,18 @@ def run(facts, R):
             if _registrations(b_, s_, module):
                 derived_calls.append(p_)
                 R.note("derived call function of %s (judged like %s): %s" % (module, callfn.rsplit("::", 2)[-2 if "{closure" in callfn else -1], p_))
+        # ... and a function that registers a waiter without writing the request itself (a helper future `response_for(id)` polled after a
+        # burst was written) leaves the order of registration and write to whoever polls it first: not establishable, reported
+        for p_, b_ in sorted(facts.bodies.items()):
+            if p_.split("::")[0].lstrip("<") != module or p_ in (callfn,) + tuple(fwds) + tuple(derived_calls) or "::tests::" in p_ or "PendingRequestGuard" in p_:
+                continue
+            s_ = Sym(b_)
+            rg_ = _registrations(b_, s_, module)
+            if rg_:
+                R.bad("register-before-write", p_, "a registration sits in the function that writes the request",
+                      "%s registers a waiter but does not write the request itself: whether the waiter exists before the request is on the wire depends on when "
+                      "this code runs relative to the writer (a lazily polled future registers only at its first poll), so a fast response can be dropped as "
+                      "unrecognised" % p_.rsplit("::", 2)[-2 if "{closure" in p_ else -1], rg_[0][1].get("span"))
         fwd_like = set(fwds)
         for p_ in derived_calls:
             b_ = facts.body(p_)
@@ -401,7 +413,7 @@ def every_response_is_looked_up(facts, R, rule):
 
 
 _ORDER_KEEPING = {"buffered", "join_all", "try_join_all"}
-_ORDER_BREAKING = {"buffer_unordered", "for_each_concurrent", "select_all", "rev", "skip", "step_by", "zip", "filter", "skip_while", "take_while", "filter_map",
+_ORDER_BREAKING = {"buffer_unordered", "for_each_concurrent", "select_all", "rev", "skip", "step_by", "filter", "skip_while", "take_while", "filter_map",
                    "flat_map", "chain", "cycle", "sort", "sort_by", "sort_by_key", "sort_unstable", "dedup", "swap", "reverse"}
 
 
